@@ -357,6 +357,9 @@ class SlotDictModel:
         st, r = eng.alloc(st, "slotdict", "dict", **fields)
         return st, r, invs
 
+    def empty(self, eng: Any, st: State) -> tuple[State, Ref]:
+        return eng.alloc(st, "slotdict", "dict", **{k: Opt(True, None) for k in self.KEYS})
+
     def getattr(self, eng: Any, st: State, r: Ref, attr: str, node: Any, ctx: Any):
         yield st, BuiltinMethod(r, attr)
 
@@ -460,6 +463,39 @@ class AbsBagModel:
         raise Unsupported(f"deque.{name} on an abstract store", node)
 
 
+class PMapModel:
+    """protobuf map field: opaque content, symbolic emptiness"""
+    name = "A-PROTO map field"
+    kind = "pmap"
+
+    def truth(self, eng: Any, st: State, r: Ref) -> Any:
+        return st.obj(r).get("nonempty")
+
+    def getattr(self, eng: Any, st: State, r: Ref, attr: str, node: Any, ctx: Any):
+        raise Unsupported(f"attribute {attr} of a protobuf map field", node)
+
+
+class CtxVarModel:
+    """contextvars.ContextVar handed in by the caller: .set(v) makes v the current value (ghost field `current`)"""
+    name = "A-CTXVAR contextvars.ContextVar.set"
+    kind = "ctxvar"
+
+    def make(self, eng: Any, st: State, sort: Sort, name: str) -> tuple[State, Any, list]:
+        st, r = eng.alloc(st, "ctxvar", "ContextVar", current=None, sets=0)
+        return st, r, []
+
+    def getattr(self, eng: Any, st: State, r: Ref, attr: str, node: Any, ctx: Any):
+        yield st, BuiltinMethod(r, attr)
+
+    def call_method(self, eng: Any, st: State, r: Ref, name: str, args: list, kwargs: dict, node: Any, ctx: Any):
+        if name == "set" and len(args) == 1:
+            st2 = st.heap_set(r, "current", args[0]).heap_set(r, "sets", st.obj(r).get("sets") + 1)
+            st3, tok = eng.alloc(st2, "opaque", None, id=V.fresh_int("token"))
+            yield st3, tok
+            return
+        raise Unsupported(f"ContextVar.{name}", node)
+
+
 class AbsMapModel:
     """A-ABSITER for mappings: a dict of unknown size, only .items()/.keys()/.values() (as abstract iterables)"""
     name = "A-ABSITER abstract mapping"
@@ -489,6 +525,8 @@ def install(reg: Any = REGISTRY) -> None:
     reg.models["absiter"] = AbsIterModel()
     reg.models["absmap"] = AbsMapModel()
     reg.models["absbag"] = AbsBagModel()
+    reg.models["pmap"] = PMapModel()
+    reg.models["ctxvar"] = CtxVarModel()
     reg.models["slotdict"] = SlotDictModel()
     reg.models["handlers"] = HandlersModel()
     reg.models["bytes"] = BytesModel()
